@@ -90,14 +90,19 @@ def same(a, b):
         return a == b
     if isinstance(b, tuple) and b and isinstance(b[0], str):
         return False
-    return all(u.shape == v.shape and torch.equal(torch.nan_to_num(u, nan=12345.0), torch.nan_to_num(v, nan=12345.0)) for u, v in zip(a, b))
+    def eq(u, v):
+        if not (torch.is_tensor(u) and torch.is_tensor(v)):
+            return type(u) is type(v) and u == v  # (a result that is not a tensor at all is other properties' business; here only A == B matters)
+        return u.shape == v.shape and torch.equal(torch.nan_to_num(u, nan=12345.0), torch.nan_to_num(v, nan=12345.0))
+
+    return all(eq(u, v) for u, v in zip(a, b))
 
 
 def compare(oa, ob):
     for k in oa:
         if k not in ob or not same(oa[k], ob[k]):
             if isinstance(oa[k], tuple) and isinstance(oa[k][0], torch.Tensor) and isinstance(ob.get(k), tuple) and isinstance(ob[k][0], torch.Tensor):
-                d = max(float((u.double() - v.double()).abs().max()) if u.shape == v.shape else float("inf") for u, v in zip(oa[k], ob[k]))
+                d = max(float((u.double() - v.double()).abs().max()) if (torch.is_tensor(u) and torch.is_tensor(v) and u.shape == v.shape) else float("inf") for u, v in zip(oa[k], ob[k]))
                 return k, "results differ by %.3g" % d
             return k, "%s vs %s" % (oa[k] if isinstance(oa[k][0], str) else "values", ob.get(k) if k in ob and isinstance(ob[k][0], str) else "values")
     return None
